@@ -1,7 +1,7 @@
 """E09 (extra, beyond the listed properties) - where a daemon says it is: inside and outside (NAT) locations in the uris it hands out.
 
 MC    : Location.tla (NetworkHostsCanBeTranslated).
-Gen   : Gen_Location.tla: listening address kind x outside address x which uri is asked for (18 cases).
+Gen   : Gen_Location.tla: listening address kind x outside address x how the outside host is written (a name, an IPv6 address) x which uri is asked for (30 cases).
 Drive : real daemons on the loopback interfaces (127.0.0.1, ::1) and on a Unix socket in the scratch directory, both server types;
         the uris from uriFor() and register() are parsed back; the object is called through the inside uri.
 Trace : Trace_Location.tla (monitor).
@@ -12,7 +12,7 @@ import time
 
 from .. import tlc, util
 
-NATHOST = "nat.example.org"
+NATHOSTS = {"name": "nat.example.org", "ipv6": "2001:db8::7"}
 
 
 def one_case(c, servertype, scratch, n):
@@ -23,6 +23,7 @@ def one_case(c, servertype, scratch, n):
     config.COMMTIMEOUT = 0.0
     rec = dict(c, server=servertype, names="", parses_back=False, register_agrees=False, reachable=False, detail="")
     kw = {}
+    NATHOST = NATHOSTS[c["nh"]]
     if c["n"] != "none":
         kw = {"nathost": NATHOST, "natport": 5555 if c["n"] == "fixed" else 0}
     path = os.path.join(scratch, "e09_%d.sock" % n)
@@ -42,8 +43,13 @@ def one_case(c, servertype, scratch, n):
         class T(object):
             def who(self):
                 return "x"
-        reg = d.register(T(), "obj")
-        uri = d.uriFor("obj", nat=c["asknat"])
+        try:
+            reg = d.register(T(), "obj")
+            uri = d.uriFor("obj", nat=c["asknat"])
+        except Exception as x:
+            # a daemon that cannot say where it is
+            rec["names"], rec["detail"] = "other_exception", "%s: %s" % (type(x).__name__, str(x)[:80])
+            return rec
         rec["register_agrees"] = str(reg) == str(d.uriFor("obj"))
         sn = d.sock.getsockname()
         if uri.sockname:
@@ -89,8 +95,8 @@ def run(ctx):
                        "the outside host name is only ever parsed, never resolved"]
     tlc.mc(ctx, "Location", cfg="MC_Location.cfg")
     cases = tlc.gen(ctx, "Gen_Location", cfg="Gen_Location.cfg")
-    if len(cases) != 18:
-        raise util.MachineryError("expected 18 cases, got %d" % len(cases))
+    if len(cases) != 30:
+        raise util.MachineryError("expected 30 cases, got %d" % len(cases))
     import socket
     have6 = True
     try:
@@ -103,7 +109,7 @@ def run(ctx):
     traces = []
     n = 0
     for servertype in ("thread", "multiplex"):
-        for c in sorted(cases, key=lambda c: (c["h"], c["n"], c["asknat"])):
+        for c in sorted(cases, key=lambda c: (c["h"], c["n"], c["nh"], c["asknat"])):
             if c["h"] == "ipv6" and not have6:
                 continue
             n += 1
